@@ -82,7 +82,16 @@ def rule_gate(program, ctx):
     if tok_ok:
         ctx.ok(rid, fn, f"token pubkey = {ev}.pubkey")
     ck = program.func("nostr_relay.auth:Authenticator.check_auth_event")
-    early = [r for r in walk_no_nested(ck) if isinstance(r, ast.Return)]
+    # a `return` that can be taken before the last check has been evaluated bypasses the remaining checks; a value-less return after
+    # which only `raise` statements follow (`if ok: return` + `raise …`, the early-return spelling of the last check) is no bypass
+    cfgk = cfg_of(ck)
+    early = []
+    for r in walk_no_nested(ck):
+        if isinstance(r, ast.Return):
+            raises_after = [x for x in walk_no_nested(ck) if isinstance(x, ast.Raise) and x.lineno > r.lineno]
+            others_after = [x for x in ck.body if x.lineno > r.lineno and not all(isinstance(y, (ast.Raise, ast.Expr)) or y is x for y in [x]) and not isinstance(x, ast.Raise)]
+            if r.value is not None or others_after:
+                early.append(r)
     if early:
         ctx.bad(finding_at(P, rid, early[0], "check_auth_event has a `return`: a check can be bypassed by a normal exit"))
     else:
